@@ -41,10 +41,12 @@ type Config struct {
 	Default  bool  `json:"default"`   // DefaultOptions() first
 	RouteMws int   `json:"route_mws"` // number of route-specific middleware on route A (0..2)
 	Update   int   `json:"update"`    // -1: no update; otherwise number of route-specific middleware after Update
+	// RouteRedirect: trailing-slash redirection is enabled on route A only (router-wide flag off)
+	RouteRedirect bool `json:"route_redirect,omitempty"`
 }
 
 func (c Config) String() string {
-	return fmt.Sprintf("globals(masks)=%v default=%v routeA-mws=%d update=%d", c.Globals, c.Default, c.RouteMws, c.Update)
+	return fmt.Sprintf("globals(masks)=%v default=%v routeA-mws=%d update=%d redirect-per-route=%v", c.Globals, c.Default, c.RouteMws, c.Update, c.RouteRedirect)
 }
 
 func expected(cfg Config, kind int, routeIDs []string, h string) string {
@@ -92,13 +94,18 @@ func evalConfig(cfg Config) (class, msg string) {
 		}
 	}
 	opts = append(opts,
-		fox.WithNoRouteHandler(handler("NR")), fox.WithNoMethodHandler(handler("NM")), fox.WithOptionsHandler(handler("OP")),
-		fox.WithRedirectTrailingSlash(true))
+		fox.WithNoRouteHandler(handler("NR")), fox.WithNoMethodHandler(handler("NM")), fox.WithOptionsHandler(handler("OP")))
+	if !cfg.RouteRedirect {
+		opts = append(opts, fox.WithRedirectTrailingSlash(true))
+	}
 	f, err := fox.New(opts...)
 	if err != nil {
 		return "error", "fox.New: " + err.Error()
 	}
 	aOpts, aIDs := routeMws("a", cfg.RouteMws)
+	if cfg.RouteRedirect {
+		aOpts = append(aOpts, fox.WithRedirectTrailingSlash(true))
+	}
 	rtA, err := f.Handle("GET", "/a", handler("HA"), aOpts...)
 	if err != nil {
 		return "error", err.Error()
@@ -111,6 +118,9 @@ func evalConfig(cfg Config) (class, msg string) {
 	hA := "HA"
 	if cfg.Update >= 0 {
 		uOpts, uIDs := routeMws("u", cfg.Update)
+		if cfg.RouteRedirect {
+			uOpts = append(uOpts, fox.WithRedirectTrailingSlash(true))
+		}
 		rtA, err = f.Update("GET", "/a", handler("HA2"), uOpts...)
 		if err != nil {
 			return "error", err.Error()
@@ -186,6 +196,9 @@ func configs(quick bool) []Config {
 			for rm := 0; rm <= 2; rm++ {
 				for _, up := range []int{-1, 0, 1} {
 					out = append(out, Config{Globals: l, Default: def, RouteMws: rm, Update: up})
+					if up != 0 {
+						out = append(out, Config{Globals: l, Default: def, RouteMws: rm, Update: up, RouteRedirect: true})
+					}
 				}
 			}
 		}
